@@ -8,7 +8,20 @@ from common import R, Ro, fl
 
 
 LEAN_MODULES = ["PyomaVerif.Props.C20", "PyomaVerif.Props.C20Extract", "PyomaVerif.Mutants.C20", "PyomaVerif.Props.WiringPlot", "PyomaVerif.Props.WiringClass", "PyomaVerif.Props.C20Stored"]
+LEAN_MODULES = ["PyomaVerif.Props.C20", "PyomaVerif.Props.C20Extract", "PyomaVerif.Mutants.C20", "PyomaVerif.Props.WiringPlot", "PyomaVerif.Props.WiringClass",
+                "PyomaVerif.Props.C20Facts"]
 THEOREMS = [
+    # depth round 2 (g19): limits, marker classes for Lab in {0,1}, decibel transform (Props/C20Facts.lean)
+    "PV.C20.C20_limits_x",
+    "PV.C20.C20_stab_ylim",
+    "PV.C20.stab_markers_inside_ylim",
+    "PV.C20.C20_stab_classes_01",
+    "PV.C20.C20_cluster_classes_01",
+    "PV.C20.C20_stab_other_shown",
+    "PV.C20.C20_labels_scApply_01",
+    "PV.C20.C20_cmif_db",
+    "PV.C20.C20_cmif_db_real",
+    "PV.C20.M_xlim_zeroLo_fails",
     # class-layer wiring, regenerated from /repo on every run (translate_wiring.py)
     "PV.WiringPlot.C20_plot_stab_wiring",
     "PV.WiringPlot.C20_plot_cluster_wiring",
@@ -61,7 +74,9 @@ RULE = (
     "/ error-bar cap data read back, NaN-filtered and compared as multisets with the Lean model's lists: markers exactly "
     "(copied floats), error-bar ends and dB curves at 1e-12/1e-11 (one float product / division / log10); for sampled stable "
     "markers (x, y) of the model the real SSI_mpe / pLSCF_mpe([x], order = y // step) against C11's models ssiMpe / plscfMpe "
-    "(all outputs), the functions the order theorems are stated about. oracle: from the "
+    "(all outputs), the functions the order theorems are stated about; depth round 2: streams [limits] (get_xlim/get_ylim/"
+    "autoscale flags of stab, cluster and CMIF axes vs op plot_limits), [classes Lab in 01], [dB] (Line2D ordinates vs op cmif_db, "
+    "the model's 10*log10 over IEEE doubles). oracle: from the "
     "statement, expected markers by a cell loop, order checked by calling the real SSI_mpe / pLSCF_mpe / class mpe with the "
     "marker's ordinate; monitors: nothing drawn on any other axes, returned axes are the ones handed in, caller arrays "
     "unmodified, every object plotted twice and older objects again after newer ones. distinct = distinct (function, rows, cols, step, hide, cov, limits) configurations"
@@ -436,6 +451,9 @@ def _call(fn, *a, axmode=None, fresh=True, leave_open=False, **k):
     try:
         rd = read_axes(ax)
         rd["xlim"] = tuple(ax.get_xlim())
+        rd["ylim"] = tuple(ax.get_ylim())  # depth round 2 (g19): limits as model facts
+        rd["autox"] = bool(ax.get_autoscalex_on())
+        rd["autoy"] = bool(ax.get_autoscaley_on())
         rd["same_axes"] = ax0 is None or (ax is ax0 and fig is fig0)
         rd["foreign"] = sum(nart(x) - before.get(id(x), 0) for x in _all_axes([fig0, getattr(ax, "figure", None)]) if x is not ax)
         # a chart drawn on axes that already carried an earlier chart is not a chart of its own
@@ -473,7 +491,41 @@ def _inp(T, **kw):
     return d
 
 
-def corr_stab_case(ctx, fname, call, T, step, hide, cov, lim):
+def corr_limits(ctx, fname, kind, rd, lim, hide=False, ords=None):
+    """depth round 2 (g19): the limits the function sets on its axes against the model fact (op plot_limits:
+    stabLimits / clusterLimits / cmifLimits): x-limits = the user's pair, BOTH ends, autoscale left on without freqlim;
+    y-limits = [ordmin, ordmax + 1] only for the stabilisation chart with the unstable poles shown"""
+    ordmin, ordmax = ords if ords is not None else (0, 0)
+    m = ctx.model("plot_limits", fn=kind, freqlim=None if lim is None else [R(lim[0]), R(lim[1])], hide=bool(hide),
+                  ordmin=int(ordmin), ordmax=int(ordmax))
+    if m["xlim"] is None:
+        ok, why = rd["autox"], "x autoscale switched off without freqlim"
+    else:
+        ok, why = (not rd["autox"]) and rd["xlim"] == (fl(m["xlim"][0]), fl(m["xlim"][1])), "xlim"
+    if ok and (ords is not None or kind != "stab"):
+        if m["ylim"] is None:
+            ok, why = rd["autoy"], "y-limits set although the model sets none"
+        else:
+            ok, why = (not rd["autoy"]) and rd["ylim"] == (float(m["ylim"][0]), float(m["ylim"][1])), "ylim"
+    ctx.corr(f"{fname}[limits]", ok, {"freqlim": lim, "hide": hide, "ords": ords}, m, {k: rd[k] for k in ("xlim", "ylim", "autox", "autoy")},
+             (kind, lim is not None, hide, ords is not None))
+    ctx.count(f"limits_{kind}_{'set' if lim is not None else 'none'}")
+
+
+def corr_classes01(ctx, fname, rd, T, hide, both=False):
+    """depth round 2 (g19): Lab in {0, 1} (C20_stab_other_shown / C20_cluster_classes_01): with the unstable poles shown every
+    retained pole has exactly one marker, stable or unstable; `both`: cluster (Fn and Xi finite)"""
+    Lab = np.asarray(T["Lab"])
+    if hide or not np.all((Lab == 0) | (Lab == 1)) or len(rd["lines"]) != 1 or len(rd["scatters"]) != 1:
+        return
+    kept = np.isfinite(T["Fn"]) & (np.isfinite(T["Xi"]) if both else True)
+    pts = drawn(rd["lines"][0]) + drawn(rd["scatters"][0])
+    ok = len(pts) == int(kept.sum()) and len(drawn(rd["lines"][0])) == int((kept & (Lab == 1)).sum())
+    ctx.corr(f"{fname}[classes Lab in 01]", ok, _inp(T, hide=hide), int(kept.sum()), len(pts), (T["Fn"].shape, both))
+    ctx.count("classes01_cases")
+
+
+def corr_stab_case(ctx, fname, call, T, step, hide, cov, lim, ords=None):
     rd, exc = call()
     st, un, bars = model_stab(ctx, T["Fn"], T["Lab"], step, hide, cov)
     key = (T["Fn"].shape, step, hide, cov is not None, lim is not None)
@@ -487,6 +539,8 @@ def corr_stab_case(ctx, fname, call, T, step, hide, cov, lim):
         ok = rd["xlim"] == (lim[0], lim[1])
         why = "xlim"
     ctx.corr(fname, ok, _inp(T, step=step, hide=hide, cov=cov, freqlim=lim), why, why, key)
+    corr_limits(ctx, fname, "stab", rd, lim, hide, ords)
+    corr_classes01(ctx, fname, rd, T, hide)
     return st
 
 
@@ -529,6 +583,8 @@ def corr_cluster_case(ctx, fname, call, T, hide, lim):
         return
     ok, why = cmp_cluster(rd, st, un)
     ctx.corr(fname, ok, _inp(T, Xi=T["Xi"], hide=hide, freqlim=lim), why, why, key)
+    corr_limits(ctx, fname, "cluster", rd, lim)
+    corr_classes01(ctx, fname, rd, T, hide, both=True)
 
 
 def corr_cmif_case(ctx, fname, call, S, freq, nSv, lim):
@@ -559,6 +615,23 @@ def corr_cmif_case(ctx, fname, call, S, freq, nSv, lim):
                 break
     ctx.corr(fname, ok, inp, why, why, key)
     ctx.count("cmif_accepted")
+    # depth round 2 (g19): the decibel ordinates as a MODEL fact (op cmif_db: cmifCurvesDb 10 log10Float, IEEE doubles
+    # as bit patterns; an exact zero of a singular value is -inf dB) and the x-limits
+    import struct
+
+    mdb = ctx.model("cmif_db", S=diag, n=n, nf=nf, nSv=None if nSv == "all" else int(nSv))
+    okdb = "curves" in mdb and len(mdb["curves"]) == len(rd["lines"])
+    if okdb:
+        for ln, cv in zip(rd["lines"], mdb["curves"]):
+            y = np.array([p[1] for p in ln])
+            want = np.array([struct.unpack("<d", struct.pack("<Q", int(b)))[0] for b in cv])
+            fin = np.isfinite(want)
+            if len(y) != len(want) or not np.array_equal(np.isneginf(y), np.isneginf(want)) or np.any(np.isnan(want) != np.isnan(y)) \
+                    or not np.allclose(y[fin], want[fin], rtol=TOL_DB, atol=TOL_DB):
+                okdb = False
+                break
+    ctx.corr(f"{fname}[dB]", okdb, inp, "model dB curves", "Line2D ydata", key)
+    corr_limits(ctx, fname, "cmif", rd, lim)
 
 
 # --- default values as regenerated obligations (Generated/Defaults.lean <- harness/translate_defaults.py; stream defaults[...])
@@ -587,7 +660,7 @@ def correspondence(ctx):
         st = corr_stab_case(
             ctx, "stab_plot",
             lambda: _call(plot.stab_plot, T["Fn"], T["Lab"], step, ordmax, ordmin=ordmin, freqlim=lim, hide_poles=hide, Fn_cov=cov, axmode=axmode),
-            T, step, hide, cov, lim,
+            T, step, hide, cov, lim, ords=(ordmin, ordmax),
         )
         corr_mpe_at_markers(ctx, T, step, st)
         ctx.count(f"ax_{axmode}")
@@ -621,11 +694,13 @@ def correspondence(ctx):
         cls = rng.choice(ssi_cls)
         ordmin = rng.choice([0, rng.randint(0, max(0, T["Fn"].shape[1] - 1))])
         a = _mk_ssi(cls, T, step=1, with_cov=True, ordmin=ordmin)
-        corr_stab_case(ctx, f"{cls.__name__}.plot_stab", lambda: _call(a.plot_stab, freqlim=lim, hide_poles=hide), T, 1, hide, T["cov"], lim)
+        corr_stab_case(ctx, f"{cls.__name__}.plot_stab", lambda: _call(a.plot_stab, freqlim=lim, hide_poles=hide), T, 1, hide, T["cov"], lim,
+                       ords=(a.run_params.ordmin, a.run_params.ordmax))
         corr_cluster_case(ctx, f"{cls.__name__}.plot_cluster", lambda: _call(a.plot_cluster, freqlim=lim, hide_poles=hide), T, hide, lim)
         cls = rng.choice(pl_cls)
         b = _mk_plscf(cls, T, ordmin=ordmin)
-        corr_stab_case(ctx, f"{cls.__name__}.plot_stab", lambda: _call(b.plot_stab, freqlim=lim, hide_poles=hide), T, 1, hide, None, lim)
+        corr_stab_case(ctx, f"{cls.__name__}.plot_stab", lambda: _call(b.plot_stab, freqlim=lim, hide_poles=hide), T, 1, hide, None, lim,
+                       ords=(b.run_params.ordmin, b.run_params.ordmax))
         corr_cluster_case(ctx, f"{cls.__name__}.plot_cluster", lambda: _call(b.plot_cluster, freqlim=lim, hide_poles=hide), T, hide, lim)
         S, freq = gen_S(ctx)
         cls = rng.choice(fdd_cls)
